@@ -3,6 +3,7 @@ package main
 import (
 	"fmt"
 	"go/ast"
+	"go/printer"
 	"go/token"
 	"reflect"
 	"strconv"
@@ -17,9 +18,11 @@ import (
 //                         `{"split":` written by SplitExp.encodeJSON
 //                         (martian/syntax/format_exp_json.go); both must agree.
 //   floatExpFormat      – (format verb, precision, bit size) of the
-//                         strconv.AppendFloat call in FloatExp.format and
-//                         FloatExp.EncodeJSON: the model's printsAsInt is the
-//                         rule of verb 'g' with precision -1.
+//                         strconv.AppendFloat call in FloatExp.format (MRO text)
+//                         and FloatExp.appendJSON (JSON fallback): the model's
+//                         textAsInt is the rule of verb 'g' with precision -1.
+//   floatJsonShape      – the integer guard of FloatExp.appendJSON and its callers
+//                         (the model's jsonAsInt).
 func init() {
 	addFact(fact{
 		name:   "invocationSplitKey",
@@ -88,7 +91,7 @@ func init() {
 			var js []string
 			for _, site := range [][3]string{
 				{"martian/syntax/format_exp.go", "FloatExp", "format"},
-				{"martian/syntax/format_exp_json.go", "FloatExp", "EncodeJSON"},
+				{"martian/syntax/format_exp_json.go", "FloatExp", "appendJSON"},
 			} {
 				_, f, err := parseFile(repo, site[0])
 				if err != nil {
@@ -98,18 +101,18 @@ func init() {
 				if md == nil {
 					return "", nil, fmt.Errorf("%s.%s not found", site[1], site[2])
 				}
-				found := false
+				n := 0
 				var bad error
-				ast.Inspect(md.Body, func(n ast.Node) bool {
-					call, ok := n.(*ast.CallExpr)
-					if !ok || found {
+				ast.Inspect(md.Body, func(nd ast.Node) bool {
+					call, ok := nd.(*ast.CallExpr)
+					if !ok {
 						return true
 					}
 					sel, ok := call.Fun.(*ast.SelectorExpr)
 					if !ok || sel.Sel.Name != "AppendFloat" || len(call.Args) != 5 {
 						return true
 					}
-					found = true
+					n++
 					verb, ok := call.Args[2].(*ast.BasicLit)
 					if !ok || verb.Kind != token.CHAR {
 						bad = fmt.Errorf("format verb is not a literal")
@@ -120,23 +123,8 @@ func init() {
 						bad = fmt.Errorf("format verb %s", verb.Value)
 						return false
 					}
-					num := func(e ast.Expr) (int, error) {
-						neg := false
-						if u, ok := e.(*ast.UnaryExpr); ok && u.Op == token.SUB {
-							neg, e = true, u.X
-						}
-						bl, ok := e.(*ast.BasicLit)
-						if !ok || bl.Kind != token.INT {
-							return 0, fmt.Errorf("not an integer literal")
-						}
-						n, err := strconv.Atoi(bl.Value)
-						if neg {
-							n = -n
-						}
-						return n, err
-					}
-					prec, err1 := num(call.Args[3])
-					bits, err2 := num(call.Args[4])
+					prec, err1 := c16IntLit(call.Args[3])
+					bits, err2 := c16IntLit(call.Args[4])
 					if err1 != nil || err2 != nil {
 						bad = fmt.Errorf("precision/bitsize not literal")
 						return false
@@ -148,11 +136,95 @@ func init() {
 				if bad != nil {
 					return "", nil, bad
 				}
-				if !found {
-					return "", nil, fmt.Errorf("no strconv.AppendFloat call in %s.%s", site[1], site[2])
+				if n != 1 {
+					return "", nil, fmt.Errorf("%d strconv.AppendFloat calls in %s.%s (expected 1)", n, site[1], site[2])
 				}
 			}
 			return "[" + strings.Join(out, ", ") + "]", js, nil
 		},
 	})
+	// floatJsonShape: FloatExp.appendJSON is
+	//     if <init>; <cond> { return <then> } ; return strconv.AppendFloat(...)
+	// and MarshalJSON / EncodeJSON of FloatExp call it.  The statement texts are
+	// emitted verbatim so that any change of the guard or of the integer printer
+	// breaks the Lean obligation facts_float_json_shape.
+	addFact(fact{
+		name:   "floatJsonShape",
+		leanTy: "List String",
+		deflt: `["init i := int64(e.Value)", "cond float64(i) == e.Value", "then strconv.AppendInt(buf, i, 10)", ` +
+			`"caller EncodeJSON", "caller MarshalJSON"]`,
+		extract: func(repo string) (string, interface{}, error) {
+			fset, f, err := parseFile(repo, "martian/syntax/format_exp_json.go")
+			if err != nil {
+				return "", nil, err
+			}
+			md := findMethod(f, "FloatExp", "appendJSON")
+			if md == nil {
+				return "", nil, fmt.Errorf("FloatExp.appendJSON not found")
+			}
+			show := func(n ast.Node) string {
+				var sb strings.Builder
+				printer.Fprint(&sb, fset, n)
+				return strings.Join(strings.Fields(sb.String()), " ")
+			}
+			if len(md.Body.List) != 2 {
+				return "", nil, fmt.Errorf("appendJSON has %d statements (expected: guarded return, return)", len(md.Body.List))
+			}
+			ifs, ok := md.Body.List[0].(*ast.IfStmt)
+			if !ok || ifs.Init == nil || ifs.Else != nil || len(ifs.Body.List) != 1 {
+				return "", nil, fmt.Errorf("appendJSON does not start with `if init; cond { return ... }`")
+			}
+			ret, ok := ifs.Body.List[0].(*ast.ReturnStmt)
+			if !ok || len(ret.Results) != 1 {
+				return "", nil, fmt.Errorf("guard body is not a single return")
+			}
+			if r2, ok := md.Body.List[1].(*ast.ReturnStmt); !ok || len(r2.Results) != 1 ||
+				!strings.HasPrefix(show(r2.Results[0]), "strconv.AppendFloat(") {
+				return "", nil, fmt.Errorf("appendJSON does not end with return strconv.AppendFloat(...)")
+			}
+			items := []string{"init " + show(ifs.Init), "cond " + show(ifs.Cond), "then " + show(ret.Results[0])}
+			for _, m := range []string{"EncodeJSON", "MarshalJSON"} {
+				fd := findMethod(f, "FloatExp", m)
+				if fd == nil {
+					return "", nil, fmt.Errorf("FloatExp.%s not found", m)
+				}
+				calls, other := false, false
+				ast.Inspect(fd.Body, func(nd ast.Node) bool {
+					if call, ok := nd.(*ast.CallExpr); ok {
+						if sel, ok := call.Fun.(*ast.SelectorExpr); ok {
+							if sel.Sel.Name == "appendJSON" {
+								calls = true
+							}
+							if sel.Sel.Name == "AppendFloat" || sel.Sel.Name == "FormatFloat" {
+								other = true
+							}
+						}
+					}
+					return true
+				})
+				if calls && !other {
+					items = append(items, "caller "+m)
+				} else {
+					items = append(items, "NOT-caller "+m)
+				}
+			}
+			return leanStrList(items), items, nil
+		},
+	})
+}
+
+func c16IntLit(e ast.Expr) (int, error) {
+	neg := false
+	if u, ok := e.(*ast.UnaryExpr); ok && u.Op == token.SUB {
+		neg, e = true, u.X
+	}
+	bl, ok := e.(*ast.BasicLit)
+	if !ok || bl.Kind != token.INT {
+		return 0, fmt.Errorf("not an integer literal")
+	}
+	n, err := strconv.Atoi(bl.Value)
+	if neg {
+		n = -n
+	}
+	return n, err
 }
